@@ -50,10 +50,16 @@ class ModelsMixin:
         out = set()
         fs = set()
 
+        definite = len(ks) == 2 and all(k <= {"I"} for k in ks)
+
         def comb(a, b):
             if isinstance(op, ast.Div) and a in ("I",) and b in ("I",):
-                fs.add(f"{self.loc(node)}: true division of two library integers `{ast.unparse(node)[:60]}`")
-                return "F"
+                # a float only if both operands are library integers on every path; "may be an
+                # integer" (a user number that happens to be I on some path) is not reported
+                if definite:
+                    fs.add(f"{self.loc(node)}: true division of two library integers `{ast.unparse(node)[:60]}`")
+                    return "F"
+                return "Q"
             if isinstance(op, ast.FloorDiv) and KRANK[a] <= 2 and KRANK[b] <= 2:
                 return a if KRANK[a] >= KRANK[b] else b
             if isinstance(op, ast.Div) and KRANK[a] <= 3 and KRANK[b] <= 3:
@@ -67,6 +73,13 @@ class ModelsMixin:
         return frozenset(out), frozenset(fs)
 
     def arith_result(self, ops: List[Val], node, op=None) -> Val:
+        num_ok = {"int", "float", "number", "bool", "ndarray"}
+        if any((not o.ty) or (o.ty - num_ok) for o in ops):
+            self.may_raise("TypeError", node=node)
+        if isinstance(op, (ast.Div, ast.FloorDiv, ast.Mod)) and len(ops) == 2:
+            d = ops[1]
+            if not (d.const is not None and d.const and all(isinstance(c, (int, float)) and not isinstance(c, bool) and c != 0 for c in d.const)):
+                self.may_raise("ZeroDivisionError", node=node)
         kinds = [scal_kind(o) for o in ops]
         k, fs = self.kind_combine(kinds, node, op)
         dep = frozenset().union(*[o.all_dep() for o in ops])
@@ -178,6 +191,8 @@ class ModelsMixin:
             dep |= rv.all_dep()
             mdep |= rv.mdep
             dn = CMPOP.get(type(op))
+            if isinstance(op, (ast.Lt, ast.LtE, ast.Gt, ast.GtE)) and any((not x.ty) or (x.ty - {"int", "float", "number", "bool", "ndarray"}) for x in (cur, rv)):
+                self.may_raise("TypeError", node=e)
             if dn:
                 done = set()
                 for cl in cur.insts():
@@ -211,12 +226,25 @@ class ModelsMixin:
 
     # ------------------------------------------------------------------ iteration / subscripts
     def iter_elem_simple(self, v: Val) -> Val:
+        self.check_iterable(v, None)
         e = v.iter_join()
         if e is not None:
             return e.add_dep(v.dep, EMPTY)
         return Val(ty={"?"}, pts={("E", o) for o in v.pts}, dep=v.dep, mdep=v.mdep)
 
+    NONITER = frozenset({"number", "int", "float", "bool", "None", "?", "callable", "exc", "const", "slice"})
+
+    def check_iterable(self, v: Val, node):
+        if not v.ty or (v.ty & self.NONITER) or any(t.startswith(("cls:", "func:", "bfunc:", "lam:", "ext:", "builtin:", "mod:")) for t in v.ty):
+            self.may_raise("TypeError", node=node)
+            if v.ty and v.ty <= {"number", "int", "float", "bool", "None"}:
+                self.dead = True  # iterating a number always raises: the normal edge is infeasible
+        for c in v.insts():
+            if not self.prog.lookup(c, "__iter__") and not self.prog.is_subclass(c, "ImmutableKnotVector") and not self.prog.lookup(c, "__getitem__"):
+                self.may_raise("TypeError", node=node)
+
     def iter_elem(self, v: Val, st, node) -> Val:
+        self.check_iterable(v, node)
         res = None
         for c in v.insts():
             ms = self.prog.lookup(c, "__iter__")
@@ -244,6 +272,12 @@ class ModelsMixin:
         return res
 
     def subscript(self, base: Val, idx: Val, st, node) -> Val:
+        if "slice" not in idx.ty or len(idx.ty) > 1:
+            self.may_raise("KeyError" if base.ty and base.ty <= {"dict"} else "IndexError", node=node)
+            if "dict" in base.ty and not base.ty <= {"dict"}:
+                self.may_raise("KeyError", node=node)
+        if not base.ty or base.ty & {"?", "None", "number", "int", "float"}:
+            self.may_raise("TypeError", node=node)
         res = None
         callees, argl = [], []
         for c in base.insts():
@@ -318,6 +352,8 @@ class ModelsMixin:
         return out
 
     def _match1(self, v: Val, t: str, tag: str) -> str:
+        if t == "?" and tag in NUMERIC_TAGS and (v.kind - {"N"}) and "N" not in v.kind and "U" not in v.kind:
+            t = "number"  # an untyped value known to be a number of these kinds
         if t == "?" or tag in ("cls:?", "cls:object"):
             return "m" if tag != "cls:object" else "y"
         c = tag[4:] if tag.startswith("cls:") else tag
@@ -526,6 +562,13 @@ class ModelsMixin:
             lv = self.ctx.vals.get(nk(l))
             rv = self.ctx.vals.get(nk(r))
             if lv is None or rv is None:
+                return st
+            if lv.const is not None and any(isinstance(c_, tuple) for c_ in lv.const):
+                # symbolic constant (a parameter's own value): nothing is known about the value
+                if isinstance(op, ast.Eq) and pol and isinstance(l, ast.Name) and l.id in st.env and rv.const is not None and len(rv.const) == 1 and not any(isinstance(c_, tuple) for c_ in rv.const):
+                    st.env[l.id] = lv.with_(const=rv.const)
+                return st
+            if rv.const is not None and any(isinstance(c_, tuple) for c_ in rv.const):
                 return st
             if isinstance(op, (ast.Is, ast.IsNot)):
                 same = pol if isinstance(op, ast.Is) else not pol
